@@ -1402,6 +1402,9 @@ class Sim:
         if held_job and not cands and not sleepers and not parked:
             self.hold_off = True  # nothing else can move: the held job finishes after all
             return self.candidates()
+        if self.outage_freeze and not cands and not sleepers and not parked:
+            self.outage_freeze = False  # nothing else can move: the outage is over for the jobs
+            return self.candidates()
         if parked:
             others = [c for c in cands if not (c[1] == "actor" and c[2].msg["k"] == "sleep")]
             idle_polling = self.steps - self.last_progress_step > 40
